@@ -136,12 +136,46 @@ def reconstruct(repo, out_dir, decoy=False):
             parts[1] = names[(k + 1) % len(names)]
             zones[i] = '\t'.join(parts)
     os.makedirs(out_dir, exist_ok=True)
-    with open(os.path.join(out_dir, ZONE_FILES[0]), 'w') as f:
-        f.write('# reconstructed from src/ace_time/zonedbx comments\n')
-        f.write('\n'.join(rules) + '\n\n' + '\n'.join(zones) + '\n\n' + '\n'.join(links) + '\n')
-    for n in ZONE_FILES[1:]:
+    # Spread over the nine files of a TZ release, like the real thing: zones by region, policies by a checksum of
+    # their name, every fourth policy with its Rule lines split over two files, links in `backward`. In which order
+    # the compiler visits the files then matters (a directory listing is in no particular order).
+    import zlib
+    region_files = [n for n in ZONE_FILES if n != 'backward']
+    content = {n: [] for n in ZONE_FILES}
+
+    def crc(text):
+        return zlib.crc32(text.encode())
+
+    def zone_file(name):
+        top = name.split('/')[0]
+        fixed = {'Africa': 'africa', 'Indian': 'africa', 'Antarctica': 'antarctica', 'Asia': 'asia', 'Australia': 'australasia',
+                 'Pacific': 'australasia', 'Europe': 'europe', 'Atlantic': 'europe', 'Etc': 'etcetera'}
+        if top in fixed:
+            return fixed[top]
+        if top == 'America':
+            return 'northamerica' if crc(name) % 2 else 'southamerica'
+        return region_files[crc(name) % len(region_files)]
+
+    policy_names = sorted({r.split('\t')[1] for r in rules})
+    split_policies = {n for i, n in enumerate(policy_names) if i % 4 == 0}
+    seen = {}
+    for r in rules:
+        pn = r.split('\t')[1]
+        k = seen.get(pn, 0)
+        seen[pn] = k + 1
+        first = region_files[crc(pn) % len(region_files)]
+        second = region_files[(crc(pn) // 7 + 3) % len(region_files)]
+        content[second if (pn in split_policies and k % 2 == 1) else first].append(r)
+    cur = None
+    for z in zones:
+        if z.startswith('Zone\t'):
+            cur = zone_file(z.split('\t')[1])
+        content[cur].append(z)
+    content['backward'] += links
+    for n in ZONE_FILES:
         with open(os.path.join(out_dir, n), 'w') as f:
-            f.write('# empty\n')
+            f.write('# reconstructed from src/ace_time/zonedbx comments (+ synthetic Verif/* entries)\n')
+            f.write('\n'.join(content[n]) + '\n')
     return {'rules': len(rules), 'zones': sum(1 for z in zones if z.startswith('Zone')), 'links': len(links)}
 
 
